@@ -33,7 +33,7 @@
 From Coq Require Import ZArith List Bool Relations.
 From Coq Require Import Reals.
 From DV Require Import Model.PyPrims Model.Tree Model.C04Model Model.C04Spec Model.C04Prims Gen.TreeCompare Proofs.C04Core
-  Proofs.C04Witness Proofs.C04Full Proofs.C04Real Proofs.C04Gen.
+  Proofs.C04Witness Proofs.C04Full Proofs.C04Real Proofs.C04Gen Proofs.C04Names.
 Import ListNotations.
 Open Scope Z_scope.
 
@@ -404,3 +404,35 @@ Theorem generated_invariant : forall mg p c w o,
   bmaps_ok (init_world c) /\ (bmaps_ok w -> bmaps_ok (snd (step mg p w o))).
 Proof. intros. split; [apply bmaps_ok_init | apply bmaps_ok_step]. Qed.
 Print Assumptions generated_invariant.
+
+(* ---- what the theorems above need from the namespace.  They are stated on split masks; a mask stands for a set of
+   leaf taxa through acc (taxon -> accession index).  The leafset mask of a node determines the node's set of leaf taxa,
+   and conversely, as soon as acc gives pairwise different, non-negative indices to the taxa ON THE TWO TREES compared:
+   nothing about other members of the namespace, vacated indices or the order of accession is needed.  (A namespace
+   with a history of removals and additions is therefore fine, as long as TaxonNamespace keeps indices unique: C10.) *)
+Theorem clade_masks_need_injectivity_on_the_trees_taxa_only : forall acc t1 t2 a b,
+  (forall x y i, In (Some x) (leaf_taxa t1 ++ leaf_taxa t2) -> In (Some y) (leaf_taxa t1 ++ leaf_taxa t2) ->
+                 zlookup x acc = Some i -> zlookup y acc = Some i -> x = y) ->
+  (forall x, In (Some x) (leaf_taxa t1 ++ leaf_taxa t2) -> exists i, zlookup x acc = Some i /\ 0 <= i) ->
+  In a (postorder t1) -> In b (postorder t2) ->
+  (lmask acc a = lmask acc b <-> forall x, In (Some x) (leaf_taxa a) <-> In (Some x) (leaf_taxa b)).
+Proof. exact clade_masks_need_injectivity_on_the_trees_taxa_only_l. Qed.
+Print Assumptions clade_masks_need_injectivity_on_the_trees_taxa_only.
+
+(* ... and it is needed: ((A:1,F:1):2,(C:1,G:1):3,D:1) against ((A:1,G:1):2,(C:1,F:1):3,D:1).  With distinct indices
+   (acc') the distances are 4, (2,2), 10, sqrt 26; with an accession map that gives G the index F still has (acc: the
+   namespace history A..F, remove B, remove E, add G under a remove_taxon() that re-uses the counter) all four are 0
+   although every hypothesis well_formed of the theorems above holds.  The harness therefore checks "distinct leaf
+   taxa have distinct bits" on every case and computes the expected distances from label sets (key
+   namespace-bit-collision). *)
+Theorem distances_with_colliding_bits_refuted : forall mg p,
+  exists acc acc' s1 s2,
+    proper acc' s1 = true /\ proper acc' s2 = true /\
+    well_formed acc s1 = true /\ well_formed acc s2 = true /\
+    proper acc s1 = false /\
+    rf mg acc' s1 s2 = Ok 4 /\ fpfn mg acc' s1 s2 = Ok (2, 2) /\
+    wrf mg p acc' s1 s2 = Ok 10240 /\ euclid_sq mg p acc' s1 s2 = Ok (26 * 1024 * 1024) /\
+    rf mg acc s1 s2 = Ok 0 /\ fpfn mg acc s1 s2 = Ok (0, 0) /\
+    wrf mg p acc s1 s2 = Ok 0 /\ euclid_sq mg p acc s1 s2 = Ok 0.
+Proof. exact distances_with_colliding_bits_refuted_l. Qed.
+Print Assumptions distances_with_colliding_bits_refuted.
